@@ -1009,6 +1009,40 @@ func run(c *mon.Ctx) {
 			}
 		}
 	}
+	// magnitudes at and near the int limits as slice bounds and steps, indexes and union members
+	for _, L := range []int{0, 1, 3} {
+		flat := make([]any, L)
+		maps := make([]any, L)
+		arrs := make([]any, L)
+		for i := 0; i < L; i++ {
+			flat[i] = int64(100 + i)
+			maps[i] = map[string]any{"k": int64(200 + i), "z": int64(300 + i)}
+			arrs[i] = []any{int64(400 + 2*i), int64(401 + 2*i)}
+		}
+		for _, sl := range jpspec.ExtremeSlices() {
+			idx++
+			if !c.Mine(idx) {
+				continue
+			}
+			f := jpspec.Slice(sl...)
+			c.Cover("lattice:extreme-magnitudes")
+			ck.check(jpref.Path{jpspec.Root(), f}, flat, true)
+			ck.check(jpref.Path{jpspec.Root(), f, jpspec.Child("k")}, maps, true)
+			ck.check(jpref.Path{f, jpspec.Nth(0)}, arrs, true)
+		}
+		for _, a := range jpspec.ExtremeInts {
+			idx++
+			if !c.Mine(idx) {
+				continue
+			}
+			c.Cover("lattice:extreme-magnitudes")
+			ck.check(jpref.Path{jpspec.Root(), jpspec.Nth(a)}, flat, true)
+			ck.check(jpref.Path{jpspec.Nth(a), jpspec.Child("k")}, maps, true)
+			ck.check(jpref.Path{jpspec.Root(), jpspec.Union(a, 0)}, flat, true)
+			ck.check(jpref.Path{jpspec.Union(0, a, -1), jpspec.Nth(-1)}, arrs, true)
+		}
+	}
+
 	r := c.Rand("paths")
 	g := &jpspec.Gen{R: r, Keys: []string{"a", "b", "c", "d", "k"}}
 	n := c.Pick(1600000, 12000000) / c.Batches
